@@ -3,7 +3,7 @@ from lib.coqterm import cbool, clist, cZ
 
 ID = "C10"
 QUICK_N = 2000
-THOROUGH_N = 80000
+THOROUGH_N = 10000
 SHARD = 500
 TRANSLATORS = ["watchdog_cond"]
 COQ_PRELUDE = "From MV Require Import Model.Watchdog.\n"
